@@ -488,6 +488,36 @@ def check(ctx):
                          "known (seed inputs of seeded nodes)", len(edits) >= 1,
            detail=f"{len(edits)} edit site(s)", nontrivial=False)
     for fi_, t, nd in edits:
+        # the attach side: the node keeps ALL its own inputs, and an input the user wired
+        # under the same keyword wins over the model-owned one (the node graph the user
+        # built is what the model must contain -- completeness and inputs/outputs inverse)
+        tgt = t[1][1]
+        own_pos = t[2] == (("star", ("a", tgt, "inputs")),)
+        kws = [v for k, v in t[3] if k == "**"]
+        own_kw = ("a", tgt, "kwinputs")
+
+        def user_wins(v):
+            # {seed: S} | node.kwinputs          (right operand wins)
+            if v[0] == "op" and v[1] == "|" and v[3] == own_kw and v[2][0] == "dict":
+                return True
+            # {seed: S, **node.kwinputs}         (later entry wins)
+            if v[0] == "dict":
+                ks = [k for k, _ in v[1]]
+                stars = [i for i, (k, val) in enumerate(v[1]) if k == ("star2",) and val == own_kw]
+                seeds = [i for i, k in enumerate(ks) if k == c("seed")]
+                return bool(stars) and bool(seeds) and max(seeds) < min(stars)
+            return False
+        guarded = any(a == ("cmp", "in", c("seed"), own_kw) and not p_
+                      or a == ("cmp", "not in", c("seed"), own_kw) and p_ for a, p_ in
+                      next((cd for u, _, cd in evaluate(repo, fi_).calls if u == t), ()))
+        ok_attach = (t[1][2] == "set_inputs" and own_pos and len(kws) == 1 and not
+                     [k for k, _ in t[3] if k != "**"] and user_wins(kws[0])) \
+            or (t[1][2] == "add_inputs" and guarded)
+        ctx.ob("C15.R8", fi_, "attaching the model-owned seed keeps every input of the node, "
+                              "and a `seed` input the user wired wins over the model's "
+                              "(node.set_inputs(*node.inputs, **{seed: S} | node.kwinputs))",
+               ok_attach, unproven=t[1][2] not in ("set_inputs", "add_inputs"),
+               detail=short(t, 220), node=nd, stmt="seed attach " + pretty(t)[:160])
         for leave in (pop, cp):
             r = evaluate(repo, leave, inline=_leave_inl(repo, mc), inline_depth=2)
             # the detachment may sit in the method or in a helper of the model class that
